@@ -18,7 +18,9 @@ mod gen;
 mod c09;
 mod c09cli;
 mod c10;
+mod c11;
 mod c12;
+mod ir;
 mod cli;
 mod clicheck;
 mod c17;
@@ -66,6 +68,7 @@ fn main() {
         "C08" => "C08",
         "C09" => "C09",
         "C10" => "C10",
+        "C11" => "C11",
         "C12" => "C12",
         "C17" => "C17",
         "C20" => "C20",
@@ -83,6 +86,7 @@ fn main() {
         "C08" => c08::run(&ctx),
         "C09" => c09::run(&ctx),
         "C10" => c10::run(&ctx),
+        "C11" => c11::run(&ctx),
         "C12" => c12::run(&ctx),
         "C17" => c17::run(&ctx),
         "C20" => c20::run(&ctx),
@@ -113,6 +117,7 @@ fn replay(path: &str) -> i32 {
         "l1" => l1::replay(&v),
         "seq" => hist::replay(&v),
         "c10" => c10::replay(&v),
+        "c11" | "c11-comments" => c11::replay(&v),
         "c12" => c12::replay(&v),
         "cli" => clicheck::replay(&v),
         "c08" => c08::replay(&v),
